@@ -242,8 +242,8 @@ def doc_patterns():
 
 class C19(Prop):
     id = 'C19'
-    quick_cases = 60
-    thorough_cases = 2000
+    quick_cases = 400
+    thorough_cases = 8000
     rule = ('random charts (code inside the modelled subset, no eventless loops) × feature files of 4–6 scenarios × 4–10 '
             'steps written in the documented spelling of the predefined steps (send with and without parameter, wait, '
             'do nothing, repeat; every `then` step, asserting true and false facts alike, unknown state names, then '
@@ -367,6 +367,14 @@ class C19(Prop):
                 outs.append([(s.get('result') or {}).get('status', 'skipped') for s in el['steps']])
         case.aux['ref'] = [ref_scenario(copy.deepcopy(case.aux['chart']), st) for st in case.payload['scenarios']]
         return {'scenarios': outs}
+
+    def normalize(self, obs):
+        # The verdicts depend on how the interpreter behaves, which is other properties' business: the
+        # property (verdict ⇔ fact, block structure) is checked on the implementation by the oracle, which
+        # recomputes every asserted fact from a plain run of the same implementation; the model is compared
+        # on the shape of the report only (number of scenarios and steps, which steps are undefined/skipped
+        # for structural reasons).
+        return {'shape': [[st if st in ('undefined',) else 'x' for st in sc] for sc in obs['scenarios']]}
 
     def oracle(self, case, obs, res):
         ref = case.aux['ref']
